@@ -57,6 +57,7 @@ def _r13_1_folded(ctx, th) -> bool:
     eng = ctx.eng
     P, F = eng.prog, eng.folder
     res = {}
+    F.start_trace()
     for cname, want in T.THUMBPRINT_MEMBERS.items():
         c = P.cls(KEYS[cname])
         got = []
@@ -75,6 +76,8 @@ def _r13_1_folded(ctx, th) -> bool:
         if is_unknown(vals[1]) or not isinstance(vals[1], (list, tuple, set, frozenset)) or any(not isinstance(x, str) for x in vals[1]):
             return False
         res[cname] = vals
+    if F.one_sided():
+        return False
     for cname, (dv, fields, dm) in res.items():
         want = T.THUMBPRINT_MEMBERS[cname]
         ctx.check(isinstance(dv, ExtVal) and dv.name == "DICT_VALUE" and not dv.called, "R13.1", th, th.node, f"{cname} :: thumbprint input",
@@ -114,53 +117,67 @@ def r13_1(ctx) -> None:
 
 
 def _r13_2_folded(ctx) -> bool:
-    """Decide the thumbprint computation by folding rfc7638.thumbprint on a probe JWK (extra members, unsorted field list,
-    a non-default digest) with json.dumps / hashlib / base64 kept symbolic: the JSON input must be exactly the listed members
+    """Decide the thumbprint computation by folding rfc7638.thumbprint on probe JWKs (one with extra members, one bare; unsorted field
+    lists, a non-default digest) with json.dumps / hashlib / base64 kept symbolic: the JSON input must be exactly the listed members
     in lexicographic order, serialised without whitespace; the digest is hashlib.new(<selected>, UTF-8 bytes of that JSON);
-    the result is its unpadded base64url text.  False when the body does not fold (the shape rule decides then)."""
+    the result is its unpadded base64url text.  False when the body does not fold, or when some test in it was decided the same way on
+    every probe (the probes would then be a sample of its behaviour, not all of it) - the shape rule decides in that case."""
     import re
     from ..fold import FuncVal, ExtVal, is_unknown
     eng = ctx.eng
     F = eng.folder
     fn = eng.prog.func("rfc7638:thumbprint")
-    probe = {"zz": "9", "y": "Yv", "kty": "EC", "a": "0", "x": "Xv", "crv": "P-256", "d": "Dv", "kid": "K"}
-    fields = ["y", "crv", "kty", "x"]
-    got = []
-    F.intercepts = {"util:to_bytes": lambda b: (got.append(b), ExtVal("TOBYTES"))[1]}
-    try:
-        r = F.call(FuncVal(fn, None, None), [dict(probe), list(fields), "sha384"], {})
-    except Exception:
-        return False
-    finally:
-        F.intercepts = {}
-    if len(got) != 1 or not isinstance(r, ExtVal):
-        return False
+    probes = [
+        ({"zz": "9", "y": "Yv", "kty": "EC", "a": "0", "x": "Xv", "crv": "P-256", "d": "Dv", "kid": "K"}, ["y", "crv", "kty", "x"], "sha384"),
+        ({"y": "Yv", "kty": "EC", "x": "Xv", "crv": "P-256"}, ["y", "crv", "kty", "x"], "sha512"),  # a bare key, members not in order
+        ({"kty": "oct", "k": "Kv"}, ["k", "kty"], "sha256"),
+    ]
     tb = eng.prog.func("util:to_bytes")
-    j = got[0].get(tb.pos_params[0])
-    cs = got[0].get(tb.pos_params[1]) if len(tb.pos_params) > 1 else "utf-8"
-    if not (isinstance(j, ExtVal) and j.name == "json.dumps" and j.called and j.args):
-        return False
-    data = j.args[0]
-    kw = dict(j.kwargs)
-    if not isinstance(data, dict) or any(is_unknown(v) for v in list(kw.values()) + list(data.values())):
+    results = []
+    F.start_trace()
+    try:
+        for probe, fields, dm in probes:
+            got = []
+            F.intercepts = {"util:to_bytes": lambda b, got=got: (got.append(b), ExtVal("TOBYTES"))[1]}
+            try:
+                r = F.call(FuncVal(fn, None, None), [dict(probe), list(fields), dm], {})
+            except Exception:
+                return False
+            finally:
+                F.intercepts = {}
+            if len(got) != 1 or not isinstance(r, ExtVal):
+                return False
+            j = got[0].get(tb.pos_params[0])
+            cs = got[0].get(tb.pos_params[1]) if len(tb.pos_params) > 1 else "utf-8"
+            if not (isinstance(j, ExtVal) and j.name == "json.dumps" and j.called and j.args):
+                return False
+            data = j.args[0]
+            kw = dict(j.kwargs)
+            if not isinstance(data, dict) or any(is_unknown(v) for v in list(kw.values()) + list(data.values())):
+                return False
+            results.append((probe, fields, dm, data, kw, cs, repr(r).replace("ext:", "")))
+    finally:
+        sided = F.one_sided()
+    if sided:
         return False
     d = fn.node
-    ctx.check(set(data) == set(fields) and all(data[k] == probe[k] for k in data if k in probe), "R13.2", fn, d, "thumbprint :: members",
-              f"members other than the listed fields can enter the thumbprint JSON (probe folds to members {sorted(data)})", "data[k] = dict_value[k] for k in fields only",
-              construct="thumbprint members copied")
-    ctx.check(list(data) == sorted(data) or kw.get("sort_keys") is True, "R13.2", fn, d, "thumbprint :: order",
-              f"the thumbprint JSON members are not in lexicographic order (probe folds to {list(data)})", "sorted(fields) / sort_keys=True", construct="thumbprint member order")
-    sep = kw.get("separators")
-    ctx.check(isinstance(sep, (tuple, list)) and list(sep) == [",", ":"] and kw.get("indent") is None, "R13.2", fn, d, "thumbprint :: separators",
-              "the thumbprint JSON is not serialised without whitespace (separators must be (',', ':'))", "separators=(',', ':')", construct="thumbprint JSON separators")
-    text = repr(r).replace("ext:", "")
-    mm = re.fullmatch(r"base64\.urlsafe_b64encode\((.*)\)\.rstrip\(b'='\)\.decode\((?:'utf-8'|'ascii'|'utf8')?\)", text)
-    ctx.check(mm is not None, "R13.2", fn, d, "thumbprint :: encoding", f"the thumbprint is not the unpadded base64url of the digest (folds to {text[:90]})",
-              "urlsafe_b64encode(hash.digest()).decode()", construct="thumbprint output encoding")
-    inner = mm.group(1) if mm else text
-    okh = re.fullmatch(r"hashlib\.new\((?:name=)?'sha384', (?:data=)?TOBYTES\)\.digest\(\)", inner) is not None and cs in ("utf-8", "utf8", "ascii")
-    ctx.check(okh, "R13.2", fn, d, "thumbprint :: digest", f"the digest is not hashlib.new(<selected method>, UTF-8 bytes of the JSON) (folds to {inner[:90]})",
-              "hashlib.new(digest_method, to_bytes(json))", construct="thumbprint digest input")
+    for probe, fields, dm, data, kw, cs, text in results:
+        tag = f" [probe {sorted(probe)}]"
+        ctx.check(set(data) == set(fields) and all(data[k] == probe[k] for k in data if k in probe), "R13.2", fn, d, "thumbprint :: members" + tag,
+                  f"members other than the listed fields can enter the thumbprint JSON (probe folds to members {sorted(data)})", "data[k] = dict_value[k] for k in fields only",
+                  construct="thumbprint members copied")
+        ctx.check(list(data) == sorted(data) or kw.get("sort_keys") is True, "R13.2", fn, d, "thumbprint :: order" + tag,
+                  f"the thumbprint JSON members are not in lexicographic order (probe folds to {list(data)})", "sorted(fields) / sort_keys=True", construct="thumbprint member order")
+        sep = kw.get("separators")
+        ctx.check(isinstance(sep, (tuple, list)) and list(sep) == [",", ":"] and kw.get("indent") is None, "R13.2", fn, d, "thumbprint :: separators" + tag,
+                  "the thumbprint JSON is not serialised without whitespace (separators must be (',', ':'))", "separators=(',', ':')", construct="thumbprint JSON separators")
+        mm = re.fullmatch(r"base64\.urlsafe_b64encode\((.*)\)\.rstrip\(b'='\)\.decode\((?:'utf-8'|'ascii'|'utf8')?\)", text)
+        ctx.check(mm is not None, "R13.2", fn, d, "thumbprint :: encoding" + tag, f"the thumbprint is not the unpadded base64url of the digest (folds to {text[:90]})",
+                  "urlsafe_b64encode(hash.digest()).decode()", construct="thumbprint output encoding")
+        inner = mm.group(1) if mm else text
+        okh = re.fullmatch(r"hashlib\.new\((?:name=)?'" + dm + r"', (?:data=)?TOBYTES\)\.digest\(\)", inner) is not None and cs in ("utf-8", "utf8", "ascii")
+        ctx.check(okh, "R13.2", fn, d, "thumbprint :: digest" + tag, f"the digest is not hashlib.new(<selected method>, UTF-8 bytes of the JSON) (folds to {inner[:90]})",
+                  "hashlib.new(digest_method, to_bytes(json))", construct="thumbprint digest input")
     return True
 
 
